@@ -26,7 +26,7 @@ COMPONENTS = {"real": ["ECAgent.Core.Environment.add_agent / remove_agent", "Sys
                        "deregister_component / get_components / __getitem__", "Agent.add_component / remove_component",
                        "SpaceWorld / DiscreteWorld / LineWorld / GridWorld add_agent / remove_agent"],
               "stub": ["component classes and agents are harness-defined"]}
-PROBES = ["population_of_dozens_oscillating", "position_subclass_component", "pool_deleted_and_recreated", "leave_from_middle", "two_models_same_type", "spatial_join_leave", "rejoin",
+PROBES = ["listed_component_registered_again", "listed_component_registered_again_mid_listing", "population_of_dozens_oscillating", "position_subclass_component", "pool_deleted_and_recreated", "leave_from_middle", "two_models_same_type", "spatial_join_leave", "rejoin",
           "attach_after_leaving", "subclass_component", "resident_touch_run", "manual_register", "reject_join", "reject_leave",
           "model_completed_then_join_leave", "falsy_component_emptied", "ops_from_inside_a_timestep", "agent_is_an_environment", "agent_class_with_class_components", "deprecated_camelcase_spelling", "component_cloned_from_a_registered_one", "second_environment_bound_to_the_same_model"]
 TECHNIQUE = "deterministic simulation: seeded join/leave/attach/detach histories interleaved over several live models vs a per-model mirror reference; known-finding classifier for resident attach/detach"
@@ -211,6 +211,12 @@ def generate(rng, tier):
         block += [L(j) for j in rng.sample(back, min(3, len(back)))] + [{"m": mi, "op": "query", "t": t}]
         cut = rng.randint(0, len(ops))
         ops = [{"m": mi, "op": "attach", "k": base + j, "t": t} for j in range(n)] + ops[:cut] + block + ops[cut:]
+    if rng.random() < 0.2:
+        # (drawn last) a caller that registers a component by hand although it is listed already (its agent joined with it): refused
+        # or not, the component is listed once
+        for _ in range(rng.randint(1, 4)):
+            ops.insert(rng.randint(0, len(ops)), {"m": rng.randrange(nm) if nm > 1 else 0, "op": "reregister",
+                                                  "k": rng.randrange(64), "t": rng.randrange(NT)})
     return {"worlds": worlds, "agents": nag, "touch": touch, "ops": ops, "envagents": envagents, "wolves": wolves,
             "side_envs": side_envs, "crowd": crowd}
 
@@ -351,9 +357,24 @@ def execute(sc, ctx):
             ctx.check(not mm.runner.todo, "runner-did-not-run", "the harness system was not executed in a running model's step")
             check_all("after-instep")
             return
-        if kind in ("join", "leave", "attach", "detach", "join_dup"):
+        if kind in ("join", "leave", "attach", "detach", "join_dup", "reregister"):
             k = op["k"] % len(mm.agents)
             a = mm.agents[k]
+        if kind == "reregister":
+            T = CT[op["t"] % NT]
+            # prefer a holder in the MIDDLE of the listing (neither the first nor the last listed component of its kind)
+            holders = [j for j in mm.residents if T in mm.agents[j].components and mm.agents[j].id not in touched_agents]
+            if not holders or not mm.model.is_running() and False:
+                return
+            j = holders[len(holders) // 2] if len(holders) >= 3 else (k if k in holders else holders[0])
+            c = mm.agents[j].components[T]
+            listed = sm.get_components(T) or []
+            if not any(x is c for x in listed):
+                return
+            ctx.fault("reject.duplicate_registration")
+            st, v = ctx.call(sm.register_component, c)        # refused (KeyError) or ignored: either way it is listed once
+            ctx.probe("listed_component_registered_again" + ("_mid_listing" if len(holders) >= 3 else ""))
+            ctx.event("reregister", mi, j, T.__name__, st)
         if kind == "attach":
             T = CT[op["t"] % NT]
             resident = k in mm.residents
